@@ -147,7 +147,7 @@ def gen_spec(rng: random.Random, max_nodes: int = 5, tie_p: float = 0.3, overrun
         if d[0] == "mix" or rng.random() < 0.5:
             exp = _r6(min(dist_max(d), per) * rng.choice([1.0, 0.5])) if d[0] != "det" else d[1]
         conns.append(dict(dst=a, src=b, blocking=rng.random() < 0.4, skip=skip or rng.random() < 0.1,
-                          jitter=rng.choice(["L", "L", "B"]), window=rng.randint(1, 4), dist=d, delay=exp))
+                          jitter=rng.choice(["L", "L", "B"]), window=rng.randint(1, 4) if rng.random() < 0.93 else rng.randint(5, 8), dist=d, delay=exp))
     for i in range(n):
         if any(c["dst"] == i and c["blocking"] for c in conns) and rng.random() < 0.25:
             nodes[i]["advance"] = True
